@@ -118,6 +118,9 @@ type Exec struct {
 	lastAlloc      map[string]*Term
 	inlineNames    map[string]bool
 	abstracted     map[string]bool
+	cutLoops       bool
+	outerUnroll    int
+	cutCount       int
 	absCall        bool
 	harnessUnroll  int
 	unrollOverride int
@@ -621,6 +624,16 @@ func (x *Exec) expand(fr *frameRun) ([]*xnode, error) {
 						bound := fr.unrollD
 						if l.spec != nil && l.spec.Unroll > 0 {
 							bound = l.spec.Unroll
+						} else if x.outerUnroll > 0 && x.unrollOverride > 0 && x.ghost == 0 && x.inlineNames[fr.fn.Name()] {
+							outer := true
+							for _, ol := range fr.loops {
+								if ol != l && ol.body[l.header] && len(ol.body) > len(l.body) {
+									outer = false
+								}
+							}
+							if outer {
+								bound = x.outerUnroll
+							}
 						}
 						if cnt[s.Index] > bound {
 							kind, tl = 2, l
@@ -804,7 +817,9 @@ func (x *Exec) runFunc(fn *ssa.Function, args []*Val, st *State, con *Contract, 
 	fr.unrollD = 12
 	if x.ghost > 0 {
 		fr.unrollD = 20
-	} else if x.unrollOverride > 0 {
+	} else if x.unrollOverride > 0 && (fn == x.unitFn || x.inlineNames[fn.Name()] || fn.Parent() != nil) {
+		// the harness's bound applies to the harness and the functions it executes itself, not
+		// to spec functions it evaluates on the way
 		fr.unrollD = x.unrollOverride
 	}
 	fr.loops = findLoops(fn)
@@ -909,6 +924,12 @@ func (x *Exec) runNode(fr *frameRun, n *xnode) error {
 	switch n.kind {
 	case 2: // unwinding assertion
 		for _, in := range n.in {
+			if x.cutLoops && x.ghost == 0 {
+				// bounded harness with `cuts`: executions that iterate further are outside
+				// the stated bound and are not followed
+				x.cutCount++
+				continue
+			}
 			x.oblige(in.st, "unwind", fmt.Sprintf("loop%d.unwind", n.loop.ord), n.b.Instrs[0].Pos(), tb.Not(x.full(in.st)))
 			if x.ghost > 0 && !in.st.pc.IsFalse() {
 				x.unsupported(fr.fn.Name(), fmt.Sprintf("ghost loop %d not fully unrolled", n.loop.ord))
